@@ -31,7 +31,7 @@ pub trait ModuleAnalyzer {
 
 /// the charset a module is decoded with when the headers give none (deno_media_type: a UTF-16 byte-order mark for
 /// local files, otherwise UTF-8)
-pub uninterp spec fn detect_charset_spec(s: Url, b: Seq<u8>) -> Seq<char>;
+pub open spec fn detect_charset_spec(s: Url, b: Seq<u8>) -> Seq<char> { detect_charset_def(url_scheme(s), b) }
 pub assume_specification[ deno_media_type::encoding::detect_charset ](s: &Url, b: &[u8]) -> (r: &'static str)
     ensures r@ == detect_charset_spec(*s, b@);
 /// decoding under a charset (deno_media_type / encoding_rs): deterministic; removes a leading byte-order mark
